@@ -898,6 +898,15 @@ class Interp:
                 cc = getattr(self.mod, 'class_consts', {}).get(self.frame_clsname(), {})
                 if attr in cc and isinstance(cc[attr], (int, float, str, bytes, bool)) or (attr in cc and cc[attr] is None):
                     return self.e_Constant(ast.Constant(cc[attr]))
+                # an instance attribute __init__ sets once to a constant expression and nothing else assigns
+                ie = getattr(self.mod, 'init_exprs', {}).get(self.frame_clsname(), {})
+                if attr in ie:
+                    try:
+                        v = self.eval(ie[attr])
+                        self.st.notes.append('self.%s read as the constant expression __init__ assigns (%s)' % (attr, ast.unparse(ie[attr])))
+                        return v
+                    except Unsupported:
+                        pass
             return VFunc('%s.%s' % (obj.cls or 'obj', attr), bound=obj)
         if isinstance(obj, (VCons, VExc)):
             if attr in obj.attrs:
@@ -972,6 +981,24 @@ class Interp:
             return self.frame.lookup(n.id)
         except KeyError:
             pass
+        # a name the function under contract binds somewhere (assignment, for/with/except target) but not on this path: Python raises
+        # UnboundLocalError (a NameError) - a real outcome of the code, not something outside the subset
+        fn_ = getattr(self, 'fnode', None)
+        if fn_ is not None and self.frame.parent is None and not (n.id in self.spec.env or n.id in self.spec.calls):
+            bound = getattr(fn_, '_pyvc_bound', None)
+            if bound is None:
+                bound = set()
+                for x in ast.walk(fn_):
+                    if isinstance(x, ast.Name) and isinstance(x.ctx, ast.Store):
+                        bound.add(x.id)
+                    elif isinstance(x, ast.ExceptHandler) and x.name:
+                        bound.add(x.name)
+                    elif isinstance(x, (ast.Global, ast.Nonlocal)):
+                        bound -= set(x.names)
+                bound -= {a.arg for a in fn_.args.args + fn_.args.kwonlyargs}
+                fn_._pyvc_bound = bound
+            if n.id in bound:
+                raise_(self, 'UnboundLocalError', VStr("cannot access local variable '%s' where it is not associated with a value" % n.id))
         return self.resolve_global(n.id)
 
     def resolve_global(self, name):
@@ -1209,6 +1236,10 @@ class Interp:
             if ((c >> lo) + 1) & (c >> lo) == 0:
                 width = (c >> lo).bit_length()
                 return ((x / (2 ** lo)) % (2 ** width)) * (2 ** lo)
+            if c > 0:
+                # any other non-negative mask: bit by bit ((x // 2^i) % 2 is bit i of a Python int, also for negative x)
+                bits = [i for i in range(c.bit_length()) if (c >> i) & 1]
+                return z3.Sum([z3.If((x / (2 ** i)) % 2 == 1, z3.IntVal(2 ** i), z3.IntVal(0)) for i in bits])
             raise Unsupported('& with mask %d' % c)
         if on == 'BitOr':
             if c == 0:
